@@ -274,6 +274,9 @@ def r2_r3(cx):
     cx.floor("C05.R3", 7)
 
 
+from vlib.model import ITER_NEXT as T_ITER
+
+
 def r4(cx):
     m = cx.m
     pa = Prov(m, "alias")
@@ -300,7 +303,33 @@ def r4(cx):
                 if r[0] == "call" and r[1].endswith("::is_empty") and g.truth is False:
                     if _is_node_outputs(f, pa, pa.root(f, Call(f, r[2]).args[0])):
                         nonempty = True
-        cx.ob("C05.R4", "rebuild:when-declared", nonempty, "the rebuild happens exactly when the act declares outputs (`!rets.is_empty()`)", f.loc(assigns[0][0]))
+        # ... and under no other condition: an action for which the cut-down is skipped carries the client's whole map into
+        # Task::update (next() writes it to the enclosing scopes, the Error / Abort arms into the act's data)
+        from rules.common import event_arm_of
+        from rules.c01 import gdesc
+        extra = []
+        for g in guards_of(m, f, assigns[0][0], mode="alias"):
+            if g.neutral:
+                continue
+            r = g.root
+            if r[0] == "call" and r[1].endswith("::is_empty") and g.truth is False:
+                continue
+            if r[0] == "discr" and r[1][0] == "call" and (T_ITER.search(r[1][1]) or re.search(r"Try>::branch$", r[1][1])):
+                continue
+            if r[0] == "discr" and r[1][0] == "call" and r[1][1].endswith("Process::task"):
+                continue
+            if r[0] == "call" and r[1].endswith("Task::is_kind"):
+                continue  # the kind admission that precedes it
+            if r[0] in ("bin",) and "event" in str(r):
+                # `action.event == Push` admission test: both sides go on
+                if g.truth is False:
+                    continue
+            extra.append(gdesc(m, g))
+        only_for = event_arm_of(m, f, assigns[0][0])
+        cx.ob("C05.R4", "rebuild:when-declared", nonempty and not extra and only_for is None,
+              "the rebuild happens exactly when the act declares outputs (`!rets.is_empty()`), for every action%s" % (
+                  "" if (nonempty and not extra and only_for is None) else " - but it also depends on %s: the other actions reach Task::update with the client's whole option map" % (
+                      extra or ("the action being one of %s" % sorted(only_for)))), f.loc(assigns[0][0]))
         # source: a fresh Vars filled only by set(key of rets, value of action.options[key])
         src = pa.root(f, assigns[0][2][2][1]) if assigns[0][2][2][0] == "use" else None
         fresh = False
@@ -346,7 +375,8 @@ def r4(cx):
                       "besides the declared outputs the rebuilt options keep, per action, only keys that this action's arm of Task::update reads (%s)%s" % (
                           ", ".join("%s: %s" % (e, sorted(ks)) for e, ks in sorted(table.items()) if ks) or "none",
                           "" if (not bad and same) else " - but %s" % (("keeps %s which that arm never reads" % bad) if bad else "the value does not come from the same key of the client's options")), c.loc)
-            lost = {e: sorted(ks - kept.get(e, set())) for e, ks in required.items() if ks - kept.get(e, set())}
+            only_for = event_arm_of(m, f, assigns[0][0])
+            lost = {e: sorted(ks - kept.get(e, set())) for e, ks in required.items() if ks - kept.get(e, set()) and (only_for is None or e in only_for)}
             cx.ob("C05.R4", "rebuild:required-keys-survive", not lost,
                   "every key an arm of Task::update insists on (ok_or on the lookup: %s) survives the cut-down for that action%s" % (
                       ", ".join("%s: %s" % (e, sorted(ks)) for e, ks in sorted(required.items())),
